@@ -260,6 +260,15 @@ resp: dict[str, Any] = {self.output_key: output}
 send(self.server, resp)
 return len(output)
 '''
+# repaired form (notes/C16-fix-3.diff): output for a client that has gone is dropped
+WRITE_TO_CONN_GUARDED = '''
+resp: dict[str, Any] = {self.output_key: output}
+try:
+    send(self.server, resp)
+except OSError:
+    pass
+return len(output)
+'''
 # the exchange in mypy/dmypy/client.py request(): one frame out, frames in until "final"
 CLIENT_REQUEST_TRY = '''
 try:
@@ -285,6 +294,15 @@ def same(stmts: list[ast.stmt], template: str, what: str) -> None:
     if dump(strip_doc(stmts)) != dump(ast.parse(template).body):
         raise Unsupported(f"{what} differs from the template the hand model was written from:\n"
                           + "\n".join(ast.unparse(s) for s in strip_doc(stmts))[:1500])
+
+
+def write_to_conn_guarded(util: ast.Module) -> bool:
+    body = dump(strip_doc(find_method(find_class(util, "WriteToConn"), "write").body))
+    if body == dump(ast.parse(WRITE_TO_CONN).body):
+        return False
+    if body == dump(ast.parse(WRITE_TO_CONN_GUARDED).body):
+        return True
+    raise Unsupported("dmypy_util.WriteToConn.write differs from both known forms")
 
 
 def gen_frame() -> str:
@@ -322,7 +340,7 @@ def gen_frame() -> str:
         raise Unsupported("dmypy_util.receive/send not found")
     same(fns["receive"].body, UTIL_RECEIVE, "dmypy_util.receive")
     same(fns["send"].body, UTIL_SEND, "dmypy_util.send")
-    same(find_method(find_class(util, "WriteToConn"), "write").body, WRITE_TO_CONN, "dmypy_util.WriteToConn.write")
+    write_to_conn_guarded(util)   # one of the two known forms, else Unsupported
     cl = ast.parse(vlib.read_repo("mypy/dmypy/client.py"))
     req = [n for n in cl.body if isinstance(n, ast.FunctionDef) and n.name == "request"]
     if not req:
@@ -487,6 +505,37 @@ def is_reset(stmts: list[ast.stmt]) -> bool:
     return got == {"buffer", "message_size"}
 
 
+RECV_TIMED = '''
+if sys.platform != "win32":
+    server.connection.settimeout(__T__)
+data = receive(server)
+if sys.platform != "win32":
+    server.connection.settimeout(None)
+'''
+
+
+def recv_body_form(body: list[ast.stmt]) -> bool | None:
+    """False: `data = receive(server)`; True: the same bracketed by a receive timeout on the accepted
+    connection (notes/C16-fix-4.diff); None: anything else"""
+    if len(body) == 1 and ast.unparse(body[0]) == "data = receive(server)":
+        return False
+    if len(body) == 3:
+        b = copy.deepcopy(body)
+        try:
+            call = b[0].body[0].value          # type: ignore[attr-defined]
+            arg = call.args[0]
+        except (AttributeError, IndexError):
+            return None
+        ok = isinstance(arg, ast.Name) or (isinstance(arg, ast.Constant) and isinstance(arg.value, (int, float))
+                                           and not isinstance(arg.value, bool) and arg.value > 0)
+        if not ok:
+            return None
+        call.args[0] = ast.Name(id="__T__", ctx=ast.Load())
+        if dump(b) == dump(ast.parse(RECV_TIMED).body):
+            return True
+    return None
+
+
 def gen_shape() -> tuple[str, dict[str, bool]]:
     tree = ast.parse(vlib.read_repo("mypy/dmypy_server.py"))
     srv = find_class(tree, "Server")
@@ -505,11 +554,12 @@ def gen_shape() -> tuple[str, dict[str, bool]]:
     # (1) the receive statement
     first = wb[0]
     recv_src = "data = receive(server)"
-    flags["recv_catch_os"] = flags["recv_catch_unicode"] = False
+    flags["recv_catch_os"] = flags["recv_catch_unicode"] = flags["conn_timeout"] = False
     if isinstance(first, ast.Assign) and ast.unparse(first) == recv_src:
         pass
-    elif (isinstance(first, ast.Try) and len(first.body) == 1 and ast.unparse(first.body[0]) == recv_src
+    elif (isinstance(first, ast.Try) and recv_body_form(first.body) is not None
           and not first.orelse and not first.finalbody and first.handlers):
+        flags["conn_timeout"] = bool(recv_body_form(first.body))
         for h in first.handlers:
             # the handler must keep serving: its last statement is `continue`, and it raises/returns/exits nowhere
             if not h.body or not isinstance(h.body[-1], ast.Continue):
@@ -582,7 +632,8 @@ def gen_shape() -> tuple[str, dict[str, bool]]:
                     raise Unsupported(f"IPCServer.{m.name} touches self.{n.attr}")  # type: ignore[attr-defined]
     ex = find_method(find_class(ipc, "IPCServer"), "__exit__")
     same(posix_branch(strip_doc(ex.body), "__exit__"), "self.close()", "IPCServer.__exit__ (POSIX)")
-    order = ["recv_catch_os", "recv_catch_unicode", "reset_on_accept", "args_validated", "send_guarded"]
+    flags["stdout_guarded"] = write_to_conn_guarded(ast.parse(vlib.read_repo("mypy/dmypy_util.py")))
+    order = ["recv_catch_os", "recv_catch_unicode", "reset_on_accept", "args_validated", "send_guarded", "conn_timeout", "stdout_guarded"]
     out = [HEADER.format(src="mypy/dmypy_server.py, mypy/ipc.py").replace("From C16 Require Import Bytes.", "From C16 Require Import Bytes Shape.")]
     out.append("(* try/except structure of Server.serve, run_command and IPCServer.__enter__ as found in the source *)\n"
                "Definition current_shape : shape :=\n  {| " + ";\n     ".join(f"{k} := {'true' if flags[k] else 'false'}" for k in order) + " |}.")
